@@ -53,7 +53,9 @@ ModelOut(cfg, in) ==
 C12_OK(cfg, in, o) ==
    \* "about the limit of decompressed data": the allowance grows with the limit and with the size of the
    \* presented (still compressed) input, which every parser necessarily copies a few times -- not with the expansion
-   /\ (in.pres # "raw" /\ Over(cfg, in)) => (o.res = "reject" /\ o.alloc_kib <= 16 * EffKiB(cfg, in) + 8192 + 12 * o.input_kib)
+   \* (an encrypted inner message passes through the XML parser, base64, the cipher and the parser again: a 9 MB input was
+   \* measured at 24 times its size on the unchanged tree, hence the factor 32)
+   /\ (in.pres # "raw" /\ Over(cfg, in)) => (o.res = "reject" /\ o.alloc_kib <= 16 * EffKiB(cfg, in) + 8192 + 32 * o.input_kib)
    /\ (in.pres # "raw" /\ ~Over(cfg, in)) => o.same
    /\ (in.pres = "raw" \/ ~Over(cfg, in)) => (o.res = (IF in.good THEN "accept" ELSE "reject"))
 C09_OK(cfg, in, o) == o.res \in {"accept", "reject"}
